@@ -45,6 +45,7 @@ def instances(tier, seed):
     out.append(dict(name='typing:star4', family='typing', graph='star4', cost=300))
     out.append(dict(name='typing:branched5:small-alphabet', family='typing', graph='branched5', alphabet=['C_3', 'C_R', 'O_3', 'C_1'], cost=200))
     out.append(dict(name='typing:chain5:small-alphabet', family='typing', graph='chain5', alphabet=['C_3', 'C_1', 'C_R', 'Zr8f4'], cost=200))
+    out.append(dict(name='typing:ethane-like:two-names', family='typing', graph='ethane-like', alphabet=['C_3', 'H_'], fixed={0: 0, 4: 0}, cost=200))
     out.append(dict(name='retype', family='retype', cost=20))
     out.append(dict(name='typekey:crosshair', family='crosshair', cost=10))
     if tier == 'thorough':
@@ -195,9 +196,13 @@ def body(ctx, p):
     edges = GRAPHS[p['graph']]
     n = max(max(e) for e in edges) + 1
     alpha = p.get('alphabet') or ALPHABET
-    ti = [ctx.int(f"ty{i}", 0, len(alpha) - 1) for i in range(n)]
+    ti = [ctx.int(f"ty{i}", 0, len(alpha) - 1) if i not in (p.get('fixed') or {}) else p['fixed'][i] for i in range(n)]
     names = [alpha[int(t)] for t in ti]
-    excl_bit = ctx.choose(2, 'exclude')
+    # exclusion sets: none / three atoms (bonds and angles inside go, no dihedral can) / four atoms spanning one torsion but, where the
+    # graph has several torsions about that bond, not all of them (the multiplicity is a property of the bond graph, not of what is left)
+    four = {'chain4': {0, 1, 2, 3}, 'star4': {0, 1, 2, 3}, 'branched5': {0, 1, 3, 4}, 'chain5': {0, 1, 2, 3}, 'ring5': {0, 1, 2, 3},
+            'ethane-like': {1, 0, 4, 5}}.get(p['graph'])
+    excl_bit = ctx.choose(3 if four else 2, 'exclude')
 
     def run(perm, reverse_lists, exclude):
         inv = {old: new for new, old in enumerate(perm)}
@@ -236,7 +241,7 @@ def body(ctx, p):
             res['d_error'] = 'unsupported torsion typing'
         return res
 
-    exclude = None if not excl_bit else {0, 1, 2}
+    exclude = [None, {0, 1, 2}, four][excl_bit]
     r0 = run(list(range(n)), False, exclude)
     r1 = run(list(range(n))[::-1], True, exclude)
     r2 = run([(i + 1) % n for i in range(n)], False, exclude)
@@ -268,7 +273,8 @@ def body(ctx, p):
             ok = True
             for t in terms:
                 seq = tuple(names[i] for i in t)
-                prm = fn(*seq)
+                # (angle parameters: a fresh bond-order list per call, so that the expected value cannot depend on earlier calls)
+                prm = fn(*seq) if kind == 'bond' else fn(*seq, bond_orders=[None, None])
                 nums = [float(x) for x in coeffs[t].split('#')[0].split() if x.replace('.', '').replace('-', '').replace('e', '').isdigit()]
                 want = [float('%10.6f' % x) for x in prm if isinstance(x, float)] if kind == 'bond' else [float('%10.6f' % prm[1])]
                 ok = ok and all(any(abs(w - g) < 1e-6 for g in nums) for w in want)
